@@ -96,7 +96,7 @@ class C19(Harness):
                 ops.append(['dec'])
             return ops
         ops = [['jump', 0], ['jump', 2], ['inc'], ['read', 0, 'a'], ['read', 1, 'a'], ['read', 0, 'b'], ['read', 0, 'c'], ['read', 1, 'd'], ['read', 0, 'e'], ['read', 0, 'f'],
-               ['inspect', 0, 'a'], ['inspect', 1, 'a'], ['push', 0], ['push', 1]]
+               ['inspect', 0, 'a'], ['inspect', 1, 'a'], ['push', 0], ['push', 1], ['trigger', 0, 'a']]
         if model['time'] > 0:
             ops.append(['dec'])
         if len(model['ctx']) < 2:
@@ -161,6 +161,9 @@ class C19(Harness):
                 elif k == 'close':
                     t.__exit__(None, None, None)
                     model['time'] = model['ctx'].pop()
+                elif k == 'trigger':
+                    # announcing a dynamic parameter neither advances nor replaces its generator
+                    w['i'][op[1]].param.trigger(op[2])
                 elif k == 'close_stop':
                     # the block is left through a StopIteration (a bare next() past `until`): swallowed by the context, which still restores the time
                     e = StopIteration()
